@@ -499,6 +499,53 @@ def r6_entity_category_tuples(run):
                   witness=cfg.describe_path(wit) if wit else None)
 
 
+def r7_declared_requirements_complete(run):
+    run.rule("R7", "the SP's declared requirement that narrows the release is "
+             "complete: mdstore.attribute_requirement() collects the requested "
+             "attributes of every AttributeConsumingService of the entity (only "
+             "an explicitly given index narrows the services); an empty "
+             "requirement would switch the narrowing off")
+    m = run.model
+    fi = m.func("mdstore.attribute_requirement")
+    cfg = cfg_of(fi, m)
+    outer = [l for l in cfg.by_kind("foriter")
+             if "attribute_consuming_service" in cfg.itext(l.ast.iter, l.id)]
+    key = fi.qual + "::all-services"
+    if len(outer) != 1:
+        run.violated("R7", key, "no loop over the entity's "
+                     "attribute_consuming_service list", fi.loc())
+        return
+    lp = outer[0]
+    it = cfg.itext(lp.ast.iter, lp.id)
+    run.check(it == "entity['attribute_consuming_service']", "R7", key,
+              "iterates entity['attribute_consuming_service'] itself",
+              "the services consulted are %s: services can be left out before "
+              "their requested attributes are read" % it, fi.loc(lp.ast))
+    v = unparse(lp.ast.target)
+    apps = [(nd, c) for nd, c in cfg.call_nodes("append")]
+    run.floor("R7", "requirement appends", len(apps), 2)
+    for nd, c in apps:
+        gs = [(unparse(e), p) for e, p, b in cfg.guards(nd.id)
+              if v in {x.id for x in ast.walk(e) if isinstance(x, ast.Name)}
+              or "index" in {x.id for x in ast.walk(e)
+                             if isinstance(x, ast.Name)}]
+        # a service is skipped only for `index is not None and acs[index] != index`
+        bad = [g for g in gs if "index" not in g[0]]
+        run.check(not bad, "R7", fi.qual + "::" + norm_text(c)[:50],
+                  "services are skipped only by an explicit index",
+                  "a service's requested attributes are collected only under "
+                  "%s" % bad, fi.loc(c))
+    # with index None nothing is skipped
+    skips = [n for n in cfg.by_kind("stmt") if isinstance(n.ast, ast.Continue)]
+    for sk in skips:
+        fs = facts(cfg, sk.id)
+        run.check(Q("index is not None") in fs, "R7",
+                  fi.qual + "::skip-needs-index",
+                  "`continue` only when an index was given",
+                  "a service is skipped under %s even without an index" %
+                  sorted(fs), fi.loc(sk.ast))
+
+
 def check(run):
     run.explanation = (
         "C07: typestate raw->filtered over every Assertion(identity) "
@@ -514,3 +561,4 @@ def check(run):
     r4_policy_filter(run)
     r5_error_branch(run)
     r6_entity_category_tuples(run)
+    r7_declared_requirements_complete(run)
